@@ -22,7 +22,7 @@ struct R { Ctx *cx = nullptr; int idx = 0; int kind = 0; struct evdns_request *h
 struct Delayed { bool tcp; int ns; struct sockaddr_in to; int conn; std::vector<uint8_t> bytes; };
 struct Ctx {
   Src *s; World *w; R r[MAXREQ]; int nreq = 0; bool base_freed = false; int freed_fail = -1; bool freed_in_cb = false; bool gai_pending_at_free0 = false;
-  int cb_depth = 0; std::vector<Delayed> delayed; bool k_tcp_uaf = false, k_rt_uaf = false, k_gai_leak = false, k_probe_uaf = false, k_gai_uaf = false, k_stall = false; bool ns_may_have_failed = false; bool closing = false;
+  int cb_depth = 0; std::vector<Delayed> delayed; bool k_tcp_uaf = false, k_rt_uaf = false, k_gai_leak = false, k_probe_uaf = false, k_gai_uaf = false, k_stall = false; bool ns_may_have_failed = false; bool closing = false; int maxinf = 0; bool followup_possible = false;
   int n_timeouts = 0, n_tcp = 0, n_cancel = 0, n_incb = 0, n_retrans = 0, n_late = 0, n_search = 0, n_failover = 0;
 };
 Ctx *CX;
@@ -154,6 +154,8 @@ int serve(Ctx &cx, bool silent) {
     int act = s.below(10);   // 0 answer 1 NXDOMAIN 2 drop 3 SERVFAIL 4 REFUSED 5 NOTIMPL 6 TC 7 garbage 8 late answer 9 answer
     if (act == 9) act = 0;
     if (it.tcp && (act == 3 || act == 4 || act == 5) && cx.k_tcp_uaf) { verif_known_skipped("asan:heap-use-after-free@client_tcp_read_packet_cb"); act = 1; }
+    if (act == 6 && cx.maxinf && cx.k_stall) { verif_known_skipped("C34/inflight-limit-stall"); act = 1; }
+    if (act == 6) cx.followup_possible = true;
     if (act == 6 && !it.tcp) { int o = owner_of(q); bool other = false; for (int k = 0; k < cx.nreq; k++) if (k != o && cx.r[k].live() && cx.r[k].tcp) other = true;
       if (cx.k_rt_uaf && (other || o < 0 || o >= cx.nreq || cx.r[o].kind == K_GAI)) { verif_known_skipped("asan:heap-use-after-free@retransmit_all_tcp_requests_for"); act = 1; }
       else if (o >= 0 && o < cx.nreq) cx.r[o].tcp = true; }
@@ -199,14 +201,15 @@ extern "C" int LLVMFuzzerTestOneInput(const uint8_t *data, size_t size) {
   cx.k_rt_uaf = verif_known("asan:heap-use-after-free@retransmit_all_tcp_requests_for");
   cx.k_probe_uaf = verif_known("asan:heap-use-after-free@nameserver_probe_callback");
   cx.k_gai_uaf = verif_known("asan:heap-use-after-free@evdns_getaddrinfo_gotresolve");
-  cx.k_stall = verif_known("C34/request-never-completes");
+  cx.k_stall = verif_known("C34/inflight-limit-stall");
   const bool k_gai_leak = cx.k_gai_leak = verif_known("C34/leak-getaddrinfo-base-free");
   int nns = 1 + s.below(3); w.open(nns);
-  int maxinf = 0; if (s.flag()) { maxinf = 1 + s.below(4); if (cx.k_stall) { verif_known_skipped("C34/request-never-completes"); maxinf = 0; } else w.set_opt("max-inflight:", maxinf); }   // known finding: a follow-up request (TCP retry / next search candidate) created while the in-flight limit is reached is parked and never pumped
+  int maxinf = 0; if (s.flag()) { maxinf = 1 + s.below(4); w.set_opt("max-inflight:", maxinf); cx.maxinf = maxinf; }   // known finding: a follow-up request (TCP retry / next search candidate) created while the in-flight limit is reached is parked and never pumped
   static const char *const TMO[] = {"5", "1", "0.3", "30"}; int tsel = s.below(4); if (tsel) w.set_opt("timeout:", TMO[tsel]);
   int attempts = 3; if (s.flag()) { attempts = 1 + s.below(3); w.set_opt("attempts:", attempts); }
   if (s.flag()) w.set_opt("max-timeouts:", 1 + (long)s.below(3));
-  int ndom = s.below(3); static const char *const DOMS[] = {"d1.example", "d2"}; for (int i = 0; i < ndom; i++) evdns_base_search_add(w.dns, DOMS[i]);
+  int ndom = s.below(3); if (ndom && cx.maxinf && cx.k_stall) { verif_known_skipped("C34/inflight-limit-stall"); ndom = 0; }
+  if (ndom) cx.followup_possible = true; static const char *const DOMS[] = {"d1.example", "d2"}; for (int i = 0; i < ndom; i++) evdns_base_search_add(w.dns, DOMS[i]);
   if (s.chance(1, 4)) w.set_opt("initial-probe-timeout:", "2");
   TR("config: nameservers=%d max-inflight=%d timeout=%s attempts=%d domains=%d", nns, maxinf, TMO[tsel], attempts, ndom);
 
@@ -237,7 +240,7 @@ extern "C" int LLVMFuzzerTestOneInput(const uint8_t *data, size_t size) {
         bool progressed = w.advance(); cx.ns_may_have_failed = true;
         if (!progressed) { // nothing scheduled at all although a request is still waiting for its outcome
           w.turn(); bool still = false; int who = -1; for (int i = 0; i < cx.nreq; i++) if (cx.r[i].live()) { still = true; who = i; }
-          if (still && w.dns) VERIF_FAIL("C34/request-never-completes", "request r%d (kind %d, cancelled=%d) has not had its callback and no timer or I/O is pending", who, cx.r[who].kind, cx.r[who].cancel_called);
+          if (still && w.dns) VERIF_FAIL((cx.maxinf && cx.followup_possible) ? "C34/inflight-limit-stall" : "C34/request-never-completes", "request r%d (kind %d, cancelled=%d) has not had its callback and no timer or I/O is pending", who, cx.r[who].kind, cx.r[who].cancel_called);
           break; }
       }
       if (w.dns) { for (int i = 0; i < cx.nreq; i++) CHECK(!cx.r[i].live(), "C34/request-never-completes", "request r%d (kind %d) still has no outcome after 600 timer rounds of silent nameservers", i, cx.r[i].kind); }
